@@ -56,7 +56,15 @@ def _guarded(ctx, oc, m, stmt, depth=0):
         return True
     if depth < 3 and m.name.startswith("_") and not m.name.startswith("__"):
         callers = [(cm, st) for cm, st in _in_class_callers(ctx, oc, m.name) if cm is not m]
-        if callers and all(_guarded(ctx, oc, cm, st, depth + 1) for cm, st in callers):
+
+        def escapes(cm, st):
+            """the helper is handed out as a value there (partial(self.helper, ..), a callback): it runs later, when
+            the guard that was passed at that moment says nothing any more"""
+            rvc = recv_name(cm)
+            called = {id(c.func) for c in ast.walk(st) if isinstance(c, ast.Call)}
+            return any(is_self_attr(n, m.name, selfname=rvc) and id(n) not in called for n in ast.walk(st))
+
+        if callers and all(not escapes(cm, st) and _guarded(ctx, oc, cm, st, depth + 1) for cm, st in callers):
             return True
     return False
 
@@ -91,7 +99,7 @@ def _mixins_loops(m):
 def effective_readers(ctx):
     """-> (reader, names): the method of the function class that merges the mixins' tables with the own one (it
     iterates `self.mixins` in whatever form - a loop, a comprehension, a generator handed to chain() -, reads
-    `self._defns`, returns a value, writes nothing of the receiver), and the names under which the merged view can be
+    `self._defns`, returns a value, is no mutator and writes neither table), and the names under which the merged view can be
     read: the reader itself and the methods / properties that only return a call of it."""
     from ..effects import func_writes
 
@@ -105,7 +113,10 @@ def effective_readers(ctx):
             (isinstance(n, ast.For) and is_self_attr(iter_base(n.iter), "mixins", selfname=rv)) or (isinstance(n, ast.comprehension) and is_self_attr(iter_base(n.iter), "mixins", selfname=rv))
             for n in ast.walk(m.node)
         )
-        if iterates and any(is_self_attr(x, "_defns", selfname=rv) for x in ast.walk(m.node)) and any(isinstance(x, ast.Return) and x.value is not None for x in ast.walk(m.node)) and not func_writes(m.node, rv):
+        guard_name = A.guard_method(ctx.repo).name
+        is_mutator = any(isinstance(x, ast.Call) and is_self_attr(x.func, guard_name, selfname=rv) for x in ast.walk(m.node))
+        writes_tables = any(w.attr in ("_defns", "mixins") for w in func_writes(m.node, rv))
+        if iterates and any(is_self_attr(x, "_defns", selfname=rv) for x in ast.walk(m.node)) and any(isinstance(x, ast.Return) and x.value is not None for x in ast.walk(m.node)) and not is_mutator and not writes_tables:
             readers.append(m)
     if len(readers) != 1:
         raise AnalysisError(f"effective-table reader not found ({[m.name for m in readers]})")
